@@ -1301,7 +1301,7 @@ def run_aux_case(ctx, su, cs, argv, cid, casedir, jobs):
     os.makedirs(indir)
     os.makedirs(outdir)
     for f in os.listdir(su.dir):
-        if f != "_case" and os.path.isfile(os.path.join(su.dir, f)) and not f.startswith(("calc", "POSCAR-", "supercell-")) \
+        if f != "_case" and os.path.isfile(os.path.join(su.dir, f)) and not f.startswith(("calc", "POSCAR-0", "supercell-")) \
                 and os.path.getsize(os.path.join(su.dir, f)) < 5e6:
             shutil.copy(os.path.join(su.dir, f), indir)
     r = C.run_script(AUXMOD.AUX[cs.cmd], argv, su.dir)
@@ -1437,7 +1437,7 @@ def run_setup(ctx, su, full, events, expected_jobs, cases=None):
         os.makedirs(outdir)
         for f in os.listdir(su.dir):
             if f != "_case" and os.path.isfile(os.path.join(su.dir, f)) and \
-                    not f.startswith(("calc", "POSCAR-", "supercell-")) and os.path.getsize(os.path.join(su.dir, f)) < 5e6:
+                    not f.startswith(("calc", "POSCAR-0", "supercell-")) and os.path.getsize(os.path.join(su.dir, f)) < 5e6:
                 shutil.copy(os.path.join(su.dir, f), indir)
         r = C.run_cli(cs.cmd, argv, su.dir)
         written = [w for w in r["written"] if not w.startswith("_case")]
